@@ -135,6 +135,9 @@ def main():
             cp(readme, os.path.join(dest, "AUTHOR_README.md"))
         mpath = os.path.join(dest, "meta.json")
         old = json.load(open(mpath)) if os.path.exists(mpath) else {}
+        # tiers that were not run this time keep their recorded verdict (a quick-only re-run must not forget "thorough: caught")
+        kept = {t: v for t, v in old.get("check_results", {}).items() if t not in meta["check_results"]}
+        meta["check_results"] = dict(meta["check_results"], **kept)
         old.update(meta)
         json.dump(old, open(mpath, "w"), indent=1)
         return 0
